@@ -53,16 +53,19 @@ def gen_frame(rng):
         v += out_size
       rows.append([g, d, grp, 0 if d < n_pre else 1, int(v)])
   rng.shuffle(rows)
-  return {'rows': rows, 'labels': list(labels), 'names': names, 'n_pre': n_pre, 'noisy_planted': noisy_geo, 'outlier_planted': out_day}
+  return {'rows': rows, 'dup_index': rng.choice([None, None, 7, 50]), 'labels': list(labels), 'names': names, 'n_pre': n_pre, 'noisy_planted': noisy_geo, 'outlier_planted': out_day}
 
 
 def to_df(fr, rows=None):
   rows = fr['rows'] if rows is None else rows
   nm = fr['names']
   d0 = pd.Timestamp('2022-01-03')
-  return pd.DataFrame({nm['geo']: [r[0] for r in rows], nm['date']: [d0 + pd.Timedelta(days=int(r[1])) for r in rows],
+  df = pd.DataFrame({nm['geo']: [r[0] for r in rows], nm['date']: [d0 + pd.Timedelta(days=int(r[1])) for r in rows],
                        nm['group']: pd.Series([r[2] for r in rows], dtype=object), nm['period']: [int(r[3]) for r in rows],
                        nm['response']: [float(r[4]) for r in rows]})
+  if fr.get('dup_index'):
+    df.index = [i % fr['dup_index'] for i in range(len(df))]     # e.g. extracts concatenated without ignore_index
+  return df
 
 
 def real_fit(fr, rows=None):
@@ -186,7 +189,7 @@ def run(out, tier, model_ok=True):
       n_noisy += bool(r['noisy'])
       n_out += bool(r['outliers'])
   out.rule = (f'{n} generated experiment frames: 2-4 geos per group (+ unassigned geos), integer responses, object-dtype group column with '
-              'integer or string labels, default and custom column names, a planted noisy geo in half of them and a planted outlier date '
+              'integer or string labels, default and custom column names, unique or repeated index labels, a planted noisy geo in half of them and a planted outlier date '
               'in half; per frame: screened data = input minus reported geos minus reported dates (row by row), analysis series = per-date '
               'totals, caller frame untouched, second run on shuffled rows gives the same reports; model fed with the reported sets; '
               'non-trivial/distinct by (reported geos, reported dates, rows kept, labels)')
